@@ -794,6 +794,49 @@ def spaces(tier, variant, seed):
     sp.append(Space("standard_run_lengths", list(range(1, 1153, 64)), al_cases, al_one,
                     "gmp_vasprintf / gmp_vsnprintf: a run of standard conversions or literal text of EVERY length 1..1152 before, after and between MPIR conversions: text, return value, block size == length+1, guard bytes"))
 
+    # ---- gmp_obstack_printf with the growing object anywhere relative to the end of the obstack's current chunk (an earlier object of every
+    #      size around the chunk size) and with fields wider than a chunk: the object must hold exactly what gmp_snprintf produces ----
+    OBF = [(b"[%40Zd]", "z"), (b"%-60Qd|", "q"), (b"%0100Zx", "z"), (b"%Zd%30s", "zs"), (b"%.50Ff|", "f")]
+
+    def ob_cases(blk):
+        lo = blk
+        for pre in range(lo, lo + 16):
+            for fi in range(len(OBF)):
+                yield (pre, fi, 0)
+        if lo == 3840:
+            for wd in (4000, 4070, 4096, 4100, 5000, 9000, 20000):
+                yield (0, 0, wd)
+
+    def ob_one(case, R):
+        pre, fi, wd = case
+        e = env()
+        z, q, f = e["z"][0], e["q"][0], e["f"][0]
+        z.set(-12345678901234567890123)
+        q.set(-7, (1 << 64) + 3)
+        f.set_frac(Fraction(5, 8))
+        if wd:
+            fmt, kinds = b"%*Zd|", "Iz"
+        else:
+            fmt, kinds = OBF[fi]
+        args = []
+        for kch in kinds:
+            args.append({"z": c_void_p(z.p), "q": c_void_p(q.p), "f": c_void_p(f.p), "s": c_char_p(b"tail"), "I": c_int(wd)}[kch])
+        big = ctypes.create_string_buffer(wd + 400) if wd else e["buf"]
+        ref = ctypes.create_string_buffer(wd + 400)
+        rl = g_snprintf(c_void_p(addressof(ref)), c_size_t(wd + 399), fmt, *args)
+        want = ref.raw[:rl]
+        ctypes.memset(big, 0, wd + 300)
+        r = S.v_obstack_printf(c_void_p(addressof(big)), c_size_t(wd + 300), pre, fmt, *args)
+        got = big.raw[:rl + 4]
+        if r != rl or got != b"pre:" + want:
+            bad = next((i for i in range(min(len(got), rl + 4)) if got[i:i + 1] != (b"pre:" + want)[i:i + 1]), -1)
+            R.fail("gmp_obstack_vprintf", "earlier object of %d bytes, format %r%s: returned %d (expected %d), object differs from gmp_snprintf's text at byte %d" % (pre, fmt, " width %d" % wd if wd else "", r, rl, bad))
+        return ("ob", pre // 64, fi, wd)
+
+    sp.append(Space("obstack_chunk_boundaries", list(range(3840, 4160, 16)), ob_cases, ob_one,
+                    "gmp_obstack_vprintf after an earlier object of EVERY size 3840..4159 bytes (the growing object crosses the end of the current chunk at some of them) "
+                    "x 5 padded formats, and fields of 4000..20000 characters on a fresh obstack: object == 'pre:' + gmp_snprintf text, return value"))
+
     # ---- sscanf reads back what printf wrote ----
     SC = [("%Zd", "d"), ("%Zx", "x"), ("%Zo", "o"), ("%#Zx", "i"), ("%#Zo", "i"), ("%Zd", "i"), ("%ZX", "x")]
     SV = LV + BIG
